@@ -111,6 +111,7 @@ func LayoutOf(t reflect.Type) (*Layout, error) {
 			}
 			switch te {
 			case "uint8", "int8", "uint16", "uint32", "int32", "uint64":
+			case "int16", "int64": // integer wire types the library may refuse; if it accepts them, this is their width
 			default:
 				return nil, fmt.Errorf("bad enum wire type %q", te)
 			}
